@@ -64,12 +64,14 @@ def validate(spec_dir, module, cfg, executions, workers=None, timeout=1800, extr
     for n, s in enumerate(seqs):
         if not s:
             accepted.update(canon[order[n]])
-    if nonempty:
-        acc, _, r = _run(spec_dir, module, cfg, [s for _, s in nonempty], False, workers, timeout, extra_env)
+    CHUNK = 20000   # executions per TLC run: the whole batch is deserialised into one TLC value
+    for c0 in range(0, len(nonempty), CHUNK):
+        chunk = nonempty[c0:c0 + CHUNK]
+        acc, _, r = _run(spec_dir, module, cfg, [s for _, s in chunk], False, workers, timeout, extra_env)
         stats["tlc_states_generated"] += r["generated"]
         stats["tlc_wall_s"] += r["wall_s"]
         rej = []
-        for j, (n, s) in enumerate(nonempty):
+        for j, (n, s) in enumerate(chunk):
             if (j + 1) in acc:
                 accepted.update(canon[order[n]])
             else:
